@@ -217,6 +217,7 @@ int setup_routing_information(struct element *e, const cJSON *request, const cJS
 	struct value_route_table val;
 	val.vals[0] = routing_request;
 	if (unlikely(HASHTABLE_PUT(route_table, e->peer->routing_table, routing_request->id, val, NULL) != HASHTABLE_SUCCESS)) {
+		cjet_timer_destroy(&routing_request->timer);
 		*response = create_error_response_from_request(routing_request->requesting_peer, request, INTERNAL_ERROR, "reason", "routing table full");
 		return -1;
 	}
@@ -224,10 +225,23 @@ int setup_routing_information(struct element *e, const cJSON *request, const cJS
 	int ret = routing_request->timer.start(&routing_request->timer, timeout_ns, request_timeout_handler, routing_request);
 	if (unlikely(ret < 0)) {
 		HASHTABLE_REMOVE(route_table, e->peer->routing_table, routing_request->id, NULL);
+		cjet_timer_destroy(&routing_request->timer);
 		*response = create_error_response_from_request(routing_request->requesting_peer, request, INTERNAL_ERROR, "reason", "could not start timer for routing request");
 		return -1;
 	}
 	return 0;
+}
+
+void remove_routing_information(struct routing_request *routing_request)
+{
+	HASHTABLE_REMOVE(route_table, routing_request->owner_peer->routing_table, routing_request->id, NULL);
+	if (unlikely(routing_request->timer.cancel(&routing_request->timer) < 0)) {
+		log_peer_err(routing_request->requesting_peer, "Could not cancel request timer!\n");
+	}
+
+	cjet_timer_destroy(&routing_request->timer);
+	cJSON_Delete(routing_request->origin_request_id);
+	cjet_free(routing_request);
 }
 
 /**
